@@ -8,7 +8,8 @@ const char* RULE =
     "enum: all 35 plane-rotation kernels (d, i<j) x 7 angle classes x 7 phase classes with a fixed dense A [exhaustive over the kernel axis]; "
     "pbt: the same kernels with generated A/angles/phases {0, pi/2, pi, negative, >2pi, 1e3, random}; Const objects with all 15 angle/phase "
     "pairs set; constructed unitaries (products of plane rotations and phases) for Rotate(U)/UTransform(U)/UDaggerTransform(U); "
-    "Hermitian Yd for the two WeightedRotation overloads; parameter store over all (state1,state2) in 0..7 and upperState in 0..7. "
+    "Hermitian Yd for the two WeightedRotation overloads; parameter store over all (state1,state2) in 0..7 and upperState in 0..7; histories on one "
+    "Const object interleaving SetMixingAngle/SetPhase with GetTransformationMatrix (several dimensions), RotateToB1 and UTransform(U). "
     "Oracle: components vs fromM(R^dagger A R), fromM(U^dagger A U), fromM(U A U^dagger) in the long-double model with tolerance "
     "C eps d^2 max|a| (x number of chained rotations); U from GetTransformationMatrix unitary and equal to the ordered product of plane "
     "rotations; RotateToB0 inverse of RotateToB1; scalar products and identity component preserved; WeightedRotation overloads agree; "
@@ -63,7 +64,7 @@ static Mat model_U(int d, double th[6][6], double de[6][6]) {
 }
 
 void run_case(ByteSource& s, CaseInfo& ci) {
-  unsigned sub = s.choose(5);
+  unsigned sub = s.choose(6);
   int d = gen_dim(s);
   switch (sub) {
     case 0: {  // one plane rotation kernel
@@ -170,6 +171,46 @@ void run_case(ByteSource& s, CaseInfo& ci) {
         ci.ratio("weighted", (double)(fabsl((ld)A1[i] - (ld)A2[i]) / (tol + TINY)));
       }
       CHECK(comps(Y) == y, "C06|WeightedRotation|Yd-modified", "d=%d", d);
+      break;
+    }
+    case 5: {  // history on one Const object: setters interleaved with every consumer of the stored parameters
+      Const p; double th[6][6], de[6][6];
+      for (int i = 0; i < 6; i++) for (int j = 0; j < 6; j++) th[i][j] = de[i][j] = 0;
+      int nsteps = 2 + (int)s.choose(10);
+      std::vector<double> a = gen_dense(s, d);
+      SU_vector A = make_vec(a, d); Mat MA = toM(a, d);
+      std::string hist; bool nta = false; int consumers = 0, sets_after_consumer = 0;
+      int nrot = d * (d - 1) / 2;
+      ld tol = 64 * d * d * EPS * amax_of(a) * nrot;
+      for (int st = 0; st < nsteps; st++) {
+        unsigned what = s.choose(5);
+        int i = (int)s.choose(d - 1), j = i + 1 + (int)s.choose(d - 1 - i);
+        if (what == 0) { th[i][j] = gen_angle(s); p.SetMixingAngle(i, j, th[i][j]); hist += fmt("angle(%d,%d)=%.3g ", i, j, th[i][j]); if (consumers) sets_after_consumer++; if (fabs(sin(th[i][j])) > 1e-3) nta = true; }
+        else if (what == 1) { de[i][j] = gen_angle(s); p.SetPhase(i, j, de[i][j]); hist += fmt("phase(%d,%d)=%.3g ", i, j, de[i][j]); if (consumers) sets_after_consumer++; }
+        else {
+          Mat W = model_U(d, th, de);
+          consumers++;
+          if (what == 2) {
+            int dd = s.flag() ? d : gen_dim(s);
+            auto gU = p.GetTransformationMatrix(dd);
+            Mat Wd = model_U(dd, th, de);
+            ld err = maxabs(fromGsl(gU.get()) - Wd);
+            hist += fmt("U(%d) ", dd);
+            CHECK(err <= 64 * nrot * 6 * EPS, fmt("C06|GetTransformationMatrix|stale-or-wrong-after-history|d=%d", dd), "diff %.3Lg after history: %s", err, hist.c_str());
+          } else if (what == 3) {
+            SU_vector B1 = A; B1.RotateToB1(p); hist += "B1 ";
+            cmp(B1, dagger(W) * MA * W, tol, fmt("C06|RotateToB1|wrong-after-history|d=%d", d), hist, ci, "history-B1");
+          } else {
+            auto gU = p.GetTransformationMatrix(d);
+            SU_vector viaUT = A.UTransform(gU.get()); hist += "UT(U) ";
+            cmp(viaUT, dagger(W) * MA * W, 2 * tol, fmt("C06|UTransform(U)|wrong-after-history|d=%d", d), hist, ci, "history-UT");
+            for (int q = 0; q < 6; q++) for (int r = q + 1; r < 6; r++)
+              CHECK(bit_equal(p.GetMixingAngle(q, r), th[q][r]) && bit_equal(p.GetPhase(q, r), de[q][r]), "C06|Const|readback-after-history", "(%d,%d) :: %s", q, r, hist.c_str());
+          }
+        }
+      }
+      ci.label("const-history"); ci.sample = fmt("Const history d=%d: %s", d, hist.c_str());
+      ci.nontrivial = nta && consumers >= 2 && sets_after_consumer >= 1;
       break;
     }
     default: {  // parameter store
